@@ -21,7 +21,8 @@ CHECKS = {
         "by the reference escaper back to exactly s (injectivity is a corollary). Bounded model checking: all paths of the "
         "real function for those lengths are decided by z3; any model is replayed natively. Operand positions (=, !=, in, contains): the literal is arbitrary (<=2/3 bytes) or one "
         "of 13 longer texts spelling operator words and query syntax; the field value arbitrary: the typed query means the literal's exact string; four pairs of escaped "
-        "literals inside one filter (in / or / and forms) each denote their own string.",
+        "literals inside one filter (in / or / and forms) each denote their own string; ids spliced by the store into its own delete filters denote themselves "
+        "(the C04 any-id cascade step, also registered here).",
         BASE_NOTE + "Outside: longer strings, non-ASCII bytes, the ANTLR lexer's acceptance of the literal (grammar fragment), "
         "filters with more than two literals.",
         "6/C11"),
@@ -34,7 +35,7 @@ CHECKS["C13"] = (
     "127/128/129/4095/4096/4097 bytes (symbolic fill byte) round-trip or are rejected.",
     BASE_NOTE + "Typed scalars (string, optional string, int64, int32 widening, float64 bit patterns, bool, time incl. an arbitrary instant, nil), containers (maps / lists, "
     "nesting, empty containers), field-checker-restricted writes (every setter kind, null optional values included) and the read-modify-write setters "
-    "(GetAndSetString / GetAndSetStringList) and overwriting a stored string list with any list over old and new elements incl. repeats are separate harnesses of the same check (see evidence).",
+    "(GetAndSetString / GetAndSetStringList) overwriting a stored string list with any list over old and new elements incl. repeats, and lists of 255 / 256 / 257 / 300 elements (top level and nested) are separate harnesses of the same check (see evidence).",
     "6/C13")
 CHECKS["C14"] = (
     "For every strictly ordered set of <=3 byte strings of <=2 arbitrary bytes (empty string and shared prefixes included) "
@@ -107,12 +108,12 @@ CHECKS["C05"] = (
     "missing entity fails. (c) Ref-counted step: symbolic symmetric count (absent or 1..2^30), increment / decrement / SetLinkCount(any n in [0,2^31)) from either "
     "side / delete of either entity / link to a missing entity: both sides equal and positive, or both absent.",
     BASE_NOTE + "Also: links given as a field of the entity (PersistContext.SetLinkedIds) on create / update / patch with lists over two existing and one missing target; "
-    "thorough runs a history of two operations in the symmetry harness; SetLinks / RemoveLinks with any subset of four adjacent targets inside the transaction that "
-    "just linked them (live-node iteration). Both sides are read from the raw list buckets and through GetLinks / IsLinked / IterateLinks. SetLinkCount with a negative count is outside (no documented meaning).",
+    "thorough runs a history of two operations in the symmetry harness; SetLinks / RemoveLinks / RemoveLink / AddLink (with their changed flags) over any subset of four adjacent targets inside the "
+    "transaction that just linked them (live-node iteration, values not yet committed). Both sides are read from the raw list buckets and through GetLinks / IsLinked / IterateLinks. SetLinkCount with a negative count is outside (no documented meaning).",
     "6/C05")
 CHECKS["C16"] = (
     "Population of 2 slots (absent / ordinary / system, symbolic), then one transaction of 2 (quick) / 3 (thorough) symbolic operations (create / update / delete, "
-    "each through the ordinary context or the system context derived from it, each passing any value of IsSystem and Migrate, updates with or without a field checker): the transaction is accepted iff no "
+    "each through the ordinary context or the system context derived from it, each passing any value of IsSystem and Migrate, updates with or without a field checker; the transaction started by Db.Update or Db.Batch with an ordinary context or with a system context itself): the transaction is accepted iff no "
     "operation touches a system entity from the ordinary context; refused transactions change nothing; the stored flag always equals the one at creation. Second harness: system / ordinary entities reference an ordinary "
     "dept with a cascading delete (fk constraint or fk index); deleting the dept is refused from an ordinary context exactly when a system entity is among the "
     "referrers, and then nothing changes. Third harness: a child store layered on the system-entity store; an entity with child data (system or not) is updated "
@@ -139,7 +140,8 @@ CHECKS["C06"] = (
     "each other (the emp's delete leaves the dept and no back-reference), and a cascading delete of a dept with 4 adjacent referrers inside a transaction that "
     "already wrote to their store (no dangling reference value remains); cascades from two referring stores, repeated for one id inside one transaction; DeleteWhere "
     "removes exactly the matching entities without a trace; a cascading delete refused half way (system entity among the referrers) and retried on the same "
-    "mutate context as a system context cascades completely.",
+    "mutate context as a system context cascades completely; an entity linked and ref-count-linked to any subset of four adjacent depts (from either side) and "
+    "deleted in the same transaction leaves no trace.",
     BASE_NOTE + "Victim id is a fixed string distinct from every symbolic value. Restricting wirings and cascade are C04's subject.",
     "6/C06")
 CHECKS["C07"] = (
@@ -172,7 +174,8 @@ CHECKS["C08"] = (
     "transactions, commit actions and tx-complete listeners once. Plus: one MutateContext carrying two transactions in a row (each failing or committing, symbolic): "
     "the delivered events are exactly those of the committed ones; and a parent with two child stores where the entity lives in either: create / update / delete "
     "through any store of the family is heard once on its child store, once on the parent, never on the sibling; and the operations run inside a nested "
-    "Db.Update on the transaction's context (still one transaction: events, commit actions and tx-complete listeners once).",
+    "Db.Update on the transaction's context (still one transaction: events, commit actions and tx-complete listeners once); two creates from one re-used caller struct: each event carries what was "
+    "committed for its entity.",
     BASE_NOTE + "Commit actions run in a goroutine in the real code; the executor runs it inline (one schedule), the native replay waits for it. *Async event types are not exercised.",
     "6/C08")
 CHECKS["C09"] = (
@@ -183,7 +186,8 @@ CHECKS["C09"] = (
     "marks nothing fixed and leaves the logical content unchanged; one fix run reports it and an immediate re-check is clean with unique/set indexes, "
     "back-references and links again mirroring the entities. Second harness (fixed population): every class together with a second, ghost entry of each of the four "
     "families (same family: keys adjacent to the first one's), the fix run issued first in its transaction or after the transaction already wrote to the index "
-    "buckets: both are reported and one fix run converges.",
+    "buckets: both are reported and one fix run converges. Third harness: dangling references under a nullable fk constraint or fk index whose symbol is named like its "
+    "storage key or differently (AddFkSymbolWithKey): reported, cleared by one fix run, valid references untouched.",
     BASE_NOTE + "Logical content = every key/value and every non-empty bucket (the code creates empty field/index buckets lazily, also on read paths). "
     "Pairs of corruptions are exercised on a fixed population only; larger subsets and genuine conflicts (duplicate unique values) are not injected.",
     "6/C09")
@@ -220,7 +224,7 @@ CHECKS["C10"] = (
     "seven operator forms, isEmpty, sub-query filter and source positions, sort field (1750 queries) on all-null and on cross-referencing entities; and every query shape on a never-"
     "written store, an emptied store, one and three entities with all fields null (sorting compares null with null; QueryIds, IterateIds, IterateValidIds); cursor constructors on empty inputs.",
     BASE_NOTE + "Rejection of unrecognised characters is checked for an enumerated family only: four base queries x every insertion position outside a string "
-    "literal x 20 characters that occur in no token (1620 texts), each parsed by the real lexer/parser natively (the result is what the executor replays): all are "
+    "literal x 26 characters that occur in no token, blank-like ones (\\f, \\v, NEL, NBSP, LS, ideographic space) included (2106 texts), each parsed by the real lexer/parser natively (the result is what the executor replays): all are "
     "rejected without a panic. NOT claimed: termination / no-panic / rejection for arbitrary byte strings (the ATN interpreter is not encodable; DESIGN.md section 7).",
     "6/C10")
 CHECKS["C17"] = (
@@ -241,7 +245,7 @@ CHECKS["C20"] = (
     "contains / icontains subjects, null tests, bare bool, map elements, set functions, dotted symbols, sub-queries, sort fields); per query every public / "
     "non-public assignment of the symbols it references (symbolic bits, plus an independent bit making only the first segment of a dotted symbol public): "
     "ValidateSymbolsArePublic accepts iff all referenced symbols are public (map elements iff their map), and a rejection is an UnknownSymbolError naming a "
-    "referenced non-public symbol. Elements of nested maps (tags.a.b.c) included. Validations do not influence each other: after a rejection an unrelated "
+    "referenced non-public symbol. Queries naming a symbol and a dotted symbol that starts with it (boss, boss.s) get independent bits. Elements of nested maps (tags.a.b.c) included. Validations do not influence each other: after a rejection an unrelated "
     "acceptable query passes and the same query passes once its symbols are published.",
     BASE_NOTE + "Node kinds are covered through the query family; the evidence lists, from go/types, which AST node types' Accept the family executed "
     "(ast_node_kinds_visited) and which not (outside_claim; currently only node types that never occur in a typed query).",
